@@ -36,9 +36,20 @@ func runRoundTrip(o opts, out *Output, sig int) {
 	for c := 0; c < o.n; c++ {
 		g := &OGen{r: r.Fork(), Wide: r.Chance(25), Mono: monoPick(r)}
 		var options []cfgpkg.Option
+		optName := "default"
+		if r.Chance(30) {
+			// the content decoded must not depend on the producer's options: dictionary limits with reuse (reset
+			// regime) and without (overflow), no dictionaries, no compression
+			options, optName = optionSet(r)
+		}
+		stats["options_"+optName]++
+		leanBase := 0
 		pr := newProducerRun(options...)
 		cons := arrow_record.NewConsumer()
 		nb := 1 + r.Intn(5)
+		if optName != "default" {
+			nb = 3 + r.Intn(6)
+		}
 		// a consumer may lag behind the producer: up to `lag` batches are produced before the oldest
 		// one is decoded (always in stream order)
 		lag := []int{0, 0, 1, 2}[r.Intn(4)]
@@ -61,12 +72,12 @@ func runRoundTrip(o opts, out *Output, sig int) {
 				return false
 			}
 			outItems = cr.Trees
-			if sig == 2 && cr.DecodedPoints != nil {
+			if sig == 2 && cr.DecodedPoints != nil && itemCount(data) <= 40 {
 				if pc, ok := pointCase(res.Recs, cr.DecodedPoints); ok {
 					ptCases = append(ptCases, " "+pc)
 				}
 			}
-			if sig < 2 && cr.Decoded != nil {
+			if sig < 2 && cr.Decoded != nil && itemCount(data) <= 40 {
 				itemTy := int32(41)
 				if sig == 1 {
 					itemTy = 31
@@ -87,11 +98,15 @@ func runRoundTrip(o opts, out *Output, sig int) {
 					nt++
 				}
 			}
-			if nc > 0 {
-				sb.WriteString(";\n")
+			if itemCount(data) <= 40 {
+				if nc > 0 {
+					sb.WriteString(";\n")
+				}
+				fmt.Fprintf(&sb, " (%s,\n  %s)", in.Coq, outItems.Coq)
+				nc++
+			} else {
+				stats["go_side_only_batches"]++
 			}
-			fmt.Fprintf(&sb, " (%s,\n  %s)", in.Coq, outItems.Coq)
-			nc++
 			if d := diffKeys(in.Keys, outItems.Keys); d != "" {
 				// Go-side oracle (same normalisations, used for diagnostics and for the failing-input search)
 				out.Violation(fmt.Sprintf("C0%d", sig+1), "roundtrip-differs", "decoded telemetry differs from the encoded one: "+d, replay)
@@ -102,6 +117,11 @@ func runRoundTrip(o opts, out *Output, sig int) {
 		okSoFar := true
 		for b := 0; b < nb && okSoFar; b++ {
 			data := genAnyN(g, r, sig, 1+r.Intn(7))
+			if optName != "default" && r.Bool() {
+				// many items over a sliding window of names, each repeated: crosses an 8-bit dictionary limit with a low
+				// distinct/total ratio (reset) or a high one (overflow)
+				data = leanBatch(sig, 60+r.Intn(80), 1+r.Intn(5), &leanBase)
+			}
 			if itemCount(data) == 0 {
 				continue
 			}
@@ -136,6 +156,46 @@ func runRoundTrip(o opts, out *Output, sig int) {
 			queue = queue[1:]
 		}
 		func() { defer func() { recover() }(); pr.p.Close(); cons.Close() }()
+	}
+	// one long stream under a small consumer memory limit: every batch of an arbitrarily long history must keep decoding
+	// (Go-side comparison only)
+	{
+		g := &OGen{r: r.Fork(), Mono: 2}
+		pr := newProducerRun()
+		cons := arrow_record.NewConsumer(arrow_record.WithMemoryLimit(512 << 10))
+		nLong := 1200
+		for b := 0; b < nLong; b++ {
+			data := genAnyN(g, r, sig, 6)
+			if itemCount(data) == 0 {
+				continue
+			}
+			var in itemsOut
+			switch d := data.(type) {
+			case ptrace.Traces:
+				in = tracesItems(d)
+			case plog.Logs:
+				in = logsItems(d)
+			case pmetric.Metrics:
+				in = metricsItems(d)
+			}
+			res := pr.produce(data)
+			if res.Class != "ok" {
+				break
+			}
+			cr := consumeAny(cons, signal, res.Bar)
+			replay := map[string]any{"seed": o.seed, "long_stream": true, "batch": b, "signal": signal, "consumer_memory_limit": 512 << 10}
+			if cr.Class != "ok" {
+				out.Violation(fmt.Sprintf("C0%d", sig+1), "long-stream-stops-decoding", fmt.Sprintf("batch %d of a long stream of small batches was not decoded (consumer memory limit 512 KiB): %s %s", b, cr.Class, cr.Msg), replay)
+				break
+			}
+			if d := diffKeys(in.Keys, cr.Trees.Keys); d != "" {
+				out.Violation(fmt.Sprintf("C0%d", sig+1), "roundtrip-differs", "long stream: decoded telemetry differs from the encoded one: "+d, replay)
+				break
+			}
+			stats["long_stream_batches"]++
+		}
+		func() { defer func() { recover() }(); pr.p.Close(); cons.Close() }()
+		out.AddCase(map[string]any{"long_stream_batches": stats["long_stream_batches"], "consumer_memory_limit": 512 << 10}, true, signal+" long stream")
 	}
 	sb.WriteString("\n].\n")
 	out.Coq.WriteString(sb.String())
